@@ -426,3 +426,17 @@ func CheckRemove(run *core.Run, prog *load.Program, c *CLI) {
 	r3 := c.Run.Explore(b, i, cfgx.Cuts{Decide: c.decide(Assume{rm: "true", out: "nonempty"}, extra2)})
 	run.Check("G-RM/error", "success-continues", prog.Pos(rem[0].Call.Pos()), r3.PassedCall(news[0].Call), "after a successful removal the load is not reached")
 }
+
+// CheckFileReplaced: the -out file is replaced as a whole, whatever was there
+// (a regeneration over earlier output must not keep any of its bytes).
+func CheckFileReplaced(run *core.Run, prog *load.Program, c *CLI) {
+	out := c.Flags["out"]
+	pos := prog.Pos(c.Run.Decl.Pos())
+	writes := c.Run.SitesOf(fnWriteFile)
+	ok := len(writes) == 1 && out != nil && len(writes[0].Call.Args) == 3 && c.fieldOfParam(writes[0].Call.Args[0]) == out
+	run.Check("G-FILE/replaced", "single-WriteFile", pos, ok, fmt.Sprintf("the -out file is not written by exactly one os.WriteFile(<-out path>, …) (found %d): os.WriteFile creates or truncates; any other way of writing must be shown to replace the whole file", len(writes)))
+	for _, s := range EffectSites(prog, load.PkgMain) {
+		allowed := s.Callee == fnRemove || s.Callee == fnMkdirAll || s.Callee == fnWriteFile
+		run.Check("G-FILE/replaced", "no-other-file-api:"+s.Callee, s.Pos, allowed, fmt.Sprintf("package main uses %s: a file opened without truncation keeps the tail of a longer earlier output", s.Callee))
+	}
+}
